@@ -3,6 +3,7 @@
 package home
 
 import (
+	"net/netip"
 	"bytes"
 	"encoding/hex"
 	"fmt"
@@ -48,7 +49,10 @@ func verifC12InitAuth() (err error) {
 	users := make([]webUser, len(s.users))
 	copy(users, s.users)
 
-	a := InitAuth(s.dbFile, users, s.ttl, rl, netutil.SliceSubnetSet(nil))
+	// Both test addresses are trusted proxies (like the default 127.0.0.0/8):
+	// the proxy headers it sends are then believed for logging purposes, and
+	// must still not change which address is throttled.
+	a := InitAuth(s.dbFile, users, s.ttl, rl, netutil.SliceSubnetSet{netip.MustParsePrefix("192.0.2.1/32"), netip.MustParsePrefix("192.0.2.2/32")})
 	if a == nil {
 		return fmt.Errorf("InitAuth(%q) returned nil", s.dbFile)
 	}
